@@ -147,6 +147,8 @@ class Sim:
             ckw["supported_versions"] = list(cfg["client_versions"])
         if cfg.get("server_versions"):
             skw["supported_versions"] = list(cfg["server_versions"])
+        if cfg.get("quantum"):
+            ckw["quantum_readiness_test"] = True  # a ClientHello of more than one datagram
         if cfg.get("datagrams"):
             ckw["max_datagram_frame_size"] = 65536
             skw["max_datagram_frame_size"] = 65536
